@@ -22,5 +22,6 @@ import (
 	_ "go.amzn.com/verifh/c18"
 	_ "go.amzn.com/verifh/c19"
 	_ "go.amzn.com/verifh/c20"
+	_ "go.amzn.com/verifh/litmus"
 	_ "go.amzn.com/verifh/smoke"
 )
